@@ -240,6 +240,9 @@ pub fn oracle_c02(ops: &[String], ans: &[String]) -> Fails {
                 if let Some(r) = refs.get(&id) {
                     let c = R { w: r.w.clone(), total: r.total, d: r.d };
                     refs.insert(pu(t[2]), c);
+                } else {
+                    // unknown source (poisoned / dropped from the reference): the copy is unknown too
+                    refs.remove(&pu(t[2]));
                 }
             }
             _ => {}
@@ -340,6 +343,9 @@ pub fn oracle_c13(ops: &[String], ans: &[String]) -> Fails {
                 if let Some(r) = refs.get(&id) {
                     let c = R { q: r.q, r: r.r, set: r.set.clone() };
                     refs.insert(pu(t[2]), c);
+                } else {
+                    // unknown source (poisoned / dropped from the reference): the copy is unknown too
+                    refs.remove(&pu(t[2]));
                 }
             }
             "qf.union" => {
@@ -500,6 +506,9 @@ pub fn oracle_c14(ops: &[String], ans: &[String]) -> Fails {
                 if let Some(r) = refs.get(&id) {
                     let c = R { cfg: r.cfg, bh: r.bh, counts: r.counts.clone(), total: r.total };
                     refs.insert(pu(t[2]), c);
+                } else {
+                    // unknown source (poisoned / dropped from the reference): the copy is unknown too
+                    refs.remove(&pu(t[2]));
                 }
             }
             "cuckoo.union" => {
@@ -554,13 +563,16 @@ pub fn oracle_c18(ops: &[String], ans: &[String]) -> Fails {
                     r.added.push(pu(t[2]));
                 }
             }
-            "res.extend" => {
+            "res.extend" | "res.extendf" => {
                 if a != "ok" {
                     fails.push((i, format!("extend answered {}", a)));
                 }
                 if let Some(r) = refs.get_mut(&id) {
                     for x in &t[2..] {
-                        r.added.push(pu(x));
+                        // extendf: items >= 2^40 are filtered out before they reach the sampler
+                        if t[0] == "res.extend" || pu(x) < (1u64 << 40) {
+                            r.added.push(pu(x));
+                        }
                     }
                 }
             }
@@ -573,6 +585,9 @@ pub fn oracle_c18(ops: &[String], ans: &[String]) -> Fails {
                 if let Some(r) = refs.get(&id) {
                     let c = R { k: r.k, added: r.added.clone() };
                     refs.insert(pu(t[2]), c);
+                } else {
+                    // unknown source (poisoned / dropped from the reference): the copy is unknown too
+                    refs.remove(&pu(t[2]));
                 }
             }
             "res.empty" => {
@@ -669,6 +684,19 @@ pub fn oracle_c09(ops: &[String], ans: &[String]) -> Fails {
                     r.tracked = None;
                 }
             }
+            "lossy.addrep" => {
+                if let Some(r) = refs.get_mut(&id) {
+                    let key = pu(t[2]);
+                    let n = pu(t[3]);
+                    *r.counts.entry(key).or_insert(0) += n;
+                    r.n += n;
+                    r.tracked = None;
+                    let want_n = r.n.to_string();
+                    if a.split_whitespace().nth(1) != Some(want_n.as_str()) {
+                        fails.push((i, format!("n() = {} after {} adds", a, r.n)));
+                    }
+                }
+            }
             "lossy.n" => {
                 if let Some(r) = refs.get(&id) {
                     if a != r.n.to_string() {
@@ -687,6 +715,9 @@ pub fn oracle_c09(ops: &[String], ans: &[String]) -> Fails {
                 if let Some(r) = refs.get(&id) {
                     let c = R { eps: r.eps, width: r.width, counts: r.counts.clone(), n: r.n, tracked: r.tracked.clone() };
                     refs.insert(pu(t[2]), c);
+                } else {
+                    // unknown source (poisoned / dropped from the reference): the copy is unknown too
+                    refs.remove(&pu(t[2]));
                 }
             }
             "lossy.query" => {
@@ -805,6 +836,9 @@ pub fn oracle_c10(ops: &[String], ans: &[String]) -> Fails {
                     let c = R { k: r.k, counts: r.counts.clone(), class: r.class.clone(), shadow: r.shadow.clone(), e: r.e };
                     cfg.insert(pu(t[2]), cfg[&id]);
                     refs.insert(pu(t[2]), c);
+                } else {
+                    // unknown source (poisoned / dropped from the reference): the copy is unknown too
+                    refs.remove(&pu(t[2]));
                 }
             }
             "heap.empty" => {
@@ -918,6 +952,9 @@ pub fn oracle_td(ops: &[String], ans: &[String], prop: &str) -> Fails {
                 if let Some(r) = refs.get(&id) {
                     let c = TdRef { delta: r.delta, scale: r.scale, xs: r.xs.clone(), unit: r.unit };
                     refs.insert(pu(t[2]), c);
+                } else {
+                    // unknown source (poisoned / dropped from the reference): the copy is unknown too
+                    refs.remove(&pu(t[2]));
                 }
             }
             _ => {}
